@@ -208,6 +208,15 @@ partial def toIR : Sexp → Except String IR
   | .list [.atom "Ref", .atom x] => .ok (.ref (mkName x))
   | .list [.atom "Cast", .atom t, a] => do pure (.cast (← toIR a) (← readType t))
   | .list [.atom "IsNA", a] => do pure (.isNA (← toIR a))
+  -- `(Typed T e)`: written by harness/props/c36.py around every node — the type the FRONT END attached to that node (for a `Ref`
+  -- the type it believes the variable has); `ascribe` makes `inferType` compare it with the type the binders / rules give
+  | .list [.atom "Typed", .atom t, e] => do pure (.ascribe (← toIR e) (← readType t))
+  -- `Coalesce a b …` = if a is missing then (Coalesce b …) else a
+  | .list (.atom "Coalesce" :: args) => do
+    let es ← args.mapM toIR
+    match es.reverse with
+    | [] => throw "Coalesce"
+    | last :: revInit => pure (revInit.foldl (fun rest a => .ite (.isNA a) rest a) last)
   | .list [.atom "ApplyUnaryPrimOp", .atom op, a] => do pure (.un (← readUnOp op) (← toIR a))
   | .list [.atom "ApplyBinaryPrimOp", .atom op, a, b] => do pure (.bin (← readBinOp op) (← toIR a) (← toIR b))
   | .list [.atom "ApplyComparisonOp", .atom op, a, b] => do pure (.cmp (← readCmpOp op) (← toIR a) (← toIR b))
@@ -226,6 +235,7 @@ partial def toIR : Sexp → Except String IR
   | .list [.atom "StreamMap", .atom x, a, b] => do pure (.streamMap (mkName x) (← toIR a) (← toIR b))
   | .list [.atom "StreamFilter", .atom x, a, b] => do pure (.streamFilter (mkName x) (← toIR a) (← toIR b))
   | .list [.atom "StreamFold", .atom acc, .atom v, a, z, b] => do pure (.streamFold (mkName acc) (mkName v) (← toIR a) (← toIR z) (← toIR b))
+  | .list [.atom "StreamScan", .atom acc, .atom v, a, z, b] => do pure (.streamScan (mkName acc) (mkName v) (← toIR a) (← toIR z) (← toIR b))
   | .list (.atom "MakeStruct" :: fields) => do
     let fs ← fields.mapM fun
       | .list [.atom f, e] => do pure (f, ← toIR e)
